@@ -24,7 +24,11 @@ Inductive bcase :=
                                                        the set / the recipient's; finalHop.totalAmt;
                                                        custom record bytes (-1 none) *)
            (session : bool)            (* RestrictParams without the path set: 13 skipped *)
-| CBlindedNo (en : env) (nums : Z) (ps : list bpay) (obs_add : list edge) (dst : Z).
+| CBlindedNo (en : env) (nums : Z) (ps : list bpay) (obs_add : list edge) (dst : Z)
+| CHints (target : Z) (hints : list (list hophint))
+         (obs : list edge).           (* RouteHintsToEdges as lnd built it, input order *)
+
+Definition HH := mkHH.
 
 Fixpoint lookup_bs (f t : Z) (l : list (Z * Z * Z)) : option Z :=
   match l with
@@ -61,7 +65,9 @@ Definition no_last_hop (rs : restr) : restr :=
    11 target / final CLTV delta of the path set differ from the model
    12 last-hop restriction not met by the search path
    13 lastHopPayloadSize / the real final-hop payload differ from the size model
-      (final_hop_est / final_hop_real) *)
+      (final_hop_est / final_hop_real)
+   14 RouteHintsToEdges differs from hint_edges (end node, channel id, fee,
+      delta of every derived edge, their number and order) *)
 Definition check_bcase (c : bcase) : list N :=
   match c with
   | CBlinded gpub en rs amt src nums ps obs_add dst path r sizes bsizes last_size
@@ -82,7 +88,8 @@ Definition check_bcase (c : bcase) : list N :=
     flag 2 (list_eqb Z.eqb (hop_fees r) hopfees && (total_fees r =? totfees) &&
             (receiver_amt r =? recv)) ++
     flag 3 (path_matches g path) ++
-    flag 4 (match replay en rs amt src dst last_size path (psizes bsizes 0 path sizes) with
+    flag 4 (session ||   (* RequestRoute searches with the block-padded final expiry *)
+            match replay en rs amt src dst last_size path (psizes bsizes 0 path sizes) with
             | None => false
             | Some n => (n_node n =? src) && (n_net n =? r_amt r) && (n_cltv n =? r_tl r)
             end) ++
@@ -95,6 +102,8 @@ Definition check_bcase (c : bcase) : list N :=
   | CBlindedNo en nums ps obs_add dst =>
     flag 10 (list_eqb edge_eqb (blinded_additional nums ps) obs_add) ++
     flag 11 ((dst =? set_target nums ps) && (final_delta en =? set_final_delta ps))
+  | CHints target hints obs =>
+    flag 14 (list_eqb edge_eqb (hint_edges target hints) obs)
   end.
 
 Fixpoint bmismatches (cases : list bcase) (i : N) : list (N * list N) :=
